@@ -22,6 +22,10 @@ func verifC15SessName(w *verifWorld, sid string) string {
 			return n
 		}
 	}
+	// a closed session whose abstract name has been taken over by a reconnect: the World's session ids end in "_<name>"
+	if i := strings.LastIndex(sid, "_"); i >= 0 && strings.HasPrefix(sid, "vs") {
+		return sid[i+1:]
+	}
 	return "?" + sid
 }
 
